@@ -278,6 +278,7 @@ func NewNNSDriver(mode string) *NNSDriver {
 					nnsOp{kind: "del", name: n, typ: rtTXT, signer: sg},
 					nnsOp{kind: "updSOA", name: n, data: "new@x.y", signer: sg},
 					nnsOp{kind: "renew", name: n, years: 1, signer: sg},
+					nnsOp{kind: "renew1", name: n, signer: sg}, // the one-argument form of the same method
 					nnsOp{kind: "setAdmin", name: n, who: "nil", signer: sg},
 					nnsOp{kind: "transfer", name: n, who: "U2", signer: sg},
 					nnsOp{kind: "register", name: "z." + n, who: "S", signer: append(s("S"), sg...)},
@@ -289,6 +290,7 @@ func NewNNSDriver(mode string) *NNSDriver {
 		for _, sg := range [][]string{s("Cm"), s("U1"), s("S"), s("Al")} {
 			add(nnsOp{kind: "regTLD", name: "org", signer: sg}, nnsOp{kind: "setPrice", years: 7, signer: sg},
 				nnsOp{kind: "renew", name: "com", years: 1, signer: sg}, nnsOp{kind: "updSOA", name: "com", data: "new@x.y", signer: sg},
+				nnsOp{kind: "renew1", name: "com", signer: sg},
 				nnsOp{kind: "add", name: "com", typ: rtTXT, data: "t1", signer: sg})
 		}
 	case "C11m":
